@@ -820,7 +820,7 @@ func buildCustomTagsFromProvider(node *model.Proxy, providerTags map[string]*tel
 func buildCustomTagsFromProxyConfig(customTags map[string]*meshconfig.Tracing_CustomTag) []*tracing.CustomTag {
 	var tags []*tracing.CustomTag
 
-	for tagName, tagInfo := range customTags {
+	for tagName, tagInfo := range maps.SeqStable(customTags) {
 		if tagInfo == nil {
 			log.Warnf("while building custom tags from proxyConfig, encountered nil custom tag: %s, skipping", tagName)
 			continue
